@@ -34,7 +34,11 @@ import asyncio
 import itertools
 import json
 import logging
+import os
 import signal
+import sys
+import threading
+import time
 import warnings
 from concurrent.futures import Future
 
@@ -113,12 +117,58 @@ WATCHDOG_S = 2.0     # wall-clock; a firing is only REPORTED after a confirmatio
 CONFIRM_S = 25.0
 
 
-class watchdog:
-    """Hard timeout around code of the repo that may block (Future.result() on a pending future)."""
+class _Deadlock:
+    """
+    Deterministic deadlock detector for the SINGLE-THREADED controlled worlds (manual executor / private loop):
+    there the harness's main thread is the only thread that ever completes a `concurrent.futures.Future`, so a
+    `Future.result()` / `.exception()` WITHOUT timeout on a pending future, called on the main thread by the code
+    under test (e.g. a done-callback that waits for a nested future), can never return. Instead of waiting for the
+    wall-clock watchdog (2 s per run, 25 s per confirmation - what made a seeded blocking callback time the whole
+    check out), the patched accessors raise `Watchdog` at once and remember it: the run is reported as
+    status="hang" with deterministic=True whatever the code under test did with that exception.
+    """
+    depth = 0
+    blocked = None
+    installed = False
 
-    def __init__(self, seconds=None):
+    @classmethod
+    def install(cls):
+        if cls.installed:
+            return
+        cls.installed = True
+        orig_result, orig_exception = Future.result, Future.exception
+
+        def would_block(fut, timeout):
+            return (cls.depth > 0 and timeout is None and threading.current_thread() is threading.main_thread()
+                    and not fut.done())
+
+        def result(self, timeout=None):
+            if would_block(self, timeout):
+                cls.blocked = "Future.result() on a pending future (single-threaded world: it can never complete)"
+                raise Watchdog(cls.blocked)
+            return orig_result(self, timeout)
+
+        def exception(self, timeout=None):
+            if would_block(self, timeout):
+                cls.blocked = "Future.exception() on a pending future (single-threaded world: it can never complete)"
+                raise Watchdog(cls.blocked)
+            return orig_exception(self, timeout)
+
+        Future.result, Future.exception = result, exception
+
+
+class watchdog:
+    """
+    Hard timeout around code of the repo that may block (Future.result() on a pending future).
+    `single_threaded=True` (the manual-executor worlds) additionally arms the deterministic deadlock detector:
+    after the block `self.blocked` names the blocking call (None = none happened).
+    """
+
+    def __init__(self, seconds=None, single_threaded=False):
         self.seconds = seconds or WATCHDOG_S
         self.armed = False
+        self.single = single_threaded
+        self.blocked = None
 
     def __enter__(self):
         try:
@@ -127,16 +177,130 @@ class watchdog:
             self.armed = True
         except ValueError:  # not in the main thread
             self.armed = False
+        if self.single and self.armed:
+            _Deadlock.install()
+            if _Deadlock.depth == 0:
+                _Deadlock.blocked = None
+            _Deadlock.depth += 1
         return self
 
     def _fire(self, *a):
         raise Watchdog()
 
     def __exit__(self, *a):
+        if self.single and self.armed:
+            _Deadlock.depth -= 1
+            self.blocked = _Deadlock.blocked
         if self.armed:
             signal.setitimer(signal.ITIMER_REAL, 0)
             signal.signal(signal.SIGALRM, self.old)
         return False
+
+
+class StageTimeout(KeyboardInterrupt):
+    """Raised on the main thread by `run_stages` when one stage of a check exceeds its wall-clock cap."""
+
+
+STAGE_CAP_S = {"quick": 100.0, "thorough": 700.0}     # per stage; the whole quick budget of a check is 60 s
+
+
+def run_stages(ctx, prop, stages, replaying=None):
+    """
+    BACKSTOP behind the per-call watchdogs: run the stages `[(name, thunk)]` of a check one after another, each under
+    a wall-clock cap enforced by a timer thread that sends SIGUSR1 to the main thread (a real signal: it interrupts
+    lock waits, `Future.result()`, `run_until_complete` and sleeps; independent of the SIGALRM itimer the per-call
+    watchdogs use, so the two nest). A stage that exceeds the cap - the code under test blocked at a place no
+    per-call watchdog covers - becomes a FAILING CASE `<prop>:never-completes:stage:<name>` whose replay re-runs that
+    stage, and the remaining stages are skipped (a tree that blocks would make each of them wait as long): the check
+    always finishes. The cap is far above what a stage takes on the unchanged tree (they stop at ctx.out_of_time()).
+    """
+    cap = STAGE_CAP_S.get(ctx.tier, 100.0)
+    main_id = threading.main_thread().ident
+    if threading.current_thread() is not threading.main_thread():
+        for name, thunk in stages:
+            thunk()
+        return True
+
+    def handler(*a):
+        raise StageTimeout()
+
+    old = signal.signal(signal.SIGUSR1, handler)
+    try:
+        for name, thunk in stages:
+            if replaying is not None and name != replaying:
+                continue
+            # the code under test may SWALLOW the exception (`except BaseException: outer.set_exception(err)`) and block
+            # again: after the cap the signal is repeated every 2 s until the stage is left, and a stage that swallowed
+            # every one of them but came back is still reported.
+            stop = threading.Event()
+            fired = []
+
+            def nag():
+                if stop.wait(cap):
+                    return
+                while not stop.is_set():
+                    fired.append(1)
+                    signal.pthread_kill(main_id, signal.SIGUSR1)
+                    stop.wait(2.0)
+            timer = threading.Thread(target=nag, daemon=True)
+            timer.cancel = stop.set
+            timer.start()
+            t0 = time.time()
+            try:
+                try:
+                    thunk()
+                finally:
+                    stop.set()
+                if fired:
+                    raise StageTimeout()
+            except StageTimeout:
+                ctx.fail("%s:never-completes:stage:%s" % (prop.lower(), name),
+                         "stage %r of the check did not finish within %d s: the code under test blocks the calling thread at a "
+                         "place where the harness waits on it" % (name, cap),
+                         {"probe": "stage", "stage": name})
+                release_stuck_workers(ctx)
+                return False
+            finally:
+                timer.cancel()
+                ctx.extra.setdefault("stage_seconds", {})[name] = round(time.time() - t0, 1)
+                if os.environ.get("VERIF_STAGE_LOG"):
+                    print("stage %s/%s: %.1f s" % (prop, name, time.time() - t0), file=sys.stderr, flush=True)
+        return True
+    finally:
+        signal.signal(signal.SIGUSR1, old)
+
+
+def release_stuck_workers(ctx=None):
+    """
+    A ThreadPoolExecutor worker that the code under test blocked for good (it waits inside a done-callback) is a
+    NON-daemon thread: interpreter shutdown would join it forever and the check would never exit. After a stage on
+    real pools: give shut-down pools a moment, then take the workers that are still alive out of the two shutdown
+    join lists (concurrent.futures' and threading's). Healthy idle workers of live pools are not affected in any
+    observable way (they are only no longer joined at exit).
+    """
+    import concurrent.futures.thread as cft
+    import time
+    stuck = [t for t in list(cft._threads_queues) if t.is_alive()]
+    if not stuck:
+        return 0
+    t_end = time.time() + 0.3
+    while time.time() < t_end and any(t.is_alive() for t in stuck):
+        time.sleep(0.02)
+    n = 0
+    for t in stuck:
+        if not t.is_alive():
+            continue
+        n += 1
+        try:
+            cft._threads_queues.pop(t, None)
+            lock = getattr(t, "_tstate_lock", None)
+            if lock is not None:
+                threading._shutdown_locks.discard(lock)
+        except Exception:  # noqa  -- best effort, interpreter internals
+            pass
+    if n and ctx is not None:
+        ctx.stat("stuck-pool-workers-detached", n)
+    return n
 
 
 def list_items(rv):
@@ -988,7 +1152,7 @@ def runtime_subclasses():
     return _SUBCLASSES
 
 
-def run_threadpool(case, schedule, runtime=None):
+def _run_threadpool(case, schedule, runtime, wd):
     from py_gql import process_graphql_query
     from py_gql.execution import Executor
     from py_gql.execution.runtime import ThreadPoolRuntime
@@ -1001,8 +1165,9 @@ def run_threadpool(case, schedule, runtime=None):
         rt = runtime_subclasses()[runtime]()
     rt._inner = ManualExecutor(w)
     steps = 0
+    wd.world = w
     try:
-        with watchdog():
+        with wd:
             try:
                 fut = process_graphql_query(schema, doc, context=w, root=w.root_value(), runtime=rt, executor_cls=Executor, validators=[])
             except Watchdog:
@@ -1030,6 +1195,20 @@ def run_threadpool(case, schedule, runtime=None):
             return obs_of_result(w, result=fut.result(), status="ok", steps=steps)
     except Watchdog:
         return obs_of_result(w, status="hang", steps=steps)
+
+
+def run_threadpool(case, schedule, runtime=None):
+    """
+    One run on the manual executor. The world is single-threaded, so a blocking wait of the code under test on a
+    pending future is detected deterministically (see `_Deadlock`) and reported as status="hang" - also when the code
+    under test swallowed the detector's exception (`except BaseException: outer.set_exception(err)`).
+    """
+    wd = watchdog(single_threaded=True)
+    obs = _run_threadpool(case, schedule, runtime, wd)
+    if wd.blocked:
+        obs = obs_of_result(wd.world, status="hang", steps=obs.get("steps", 0))
+        obs["deterministic"] = wd.blocked
+    return obs
 
 
 def run_asyncio(case, schedule, runtime=None):
